@@ -103,6 +103,13 @@ func (e *ExtensionObject) Encode() ([]byte, error) {
 		return buf.Bytes(), buf.Error()
 	}
 
+	// a decoded extension object of an unknown type (or with a null or
+	// empty body) has no value: it has no body to write either
+	if e.Value == nil {
+		buf.WriteUint32(null)
+		return buf.Bytes(), buf.Error()
+	}
+
 	body := NewBuffer(nil)
 	body.WriteStruct(e.Value)
 	if body.Error() != nil {
